@@ -248,3 +248,20 @@ Proof.
   - lia.
   - apply forallb_forall. intros w Iw. specialize (M w Iw). lia.
 Qed.
+
+(* ---------------------------------------------------------------- scale() itself *)
+Lemma pscale_auto_choice p r : pscale_auto p = Ok r -> closest_log p = Ok (prefix r) /\ r = pscale p (prefix r).
+Proof.
+  unfold pscale_auto. destruct (closest_log p) as [q|err]; cbn [bind]; intros H; inversion H; subst.
+  rewrite prefix_pscale. split; reflexivity.
+Qed.
+
+(* what "strictly closer" says, on exact rationals: value^2 = c2 * 10^(2k) against the decade 10^(q+v), at any common exponent *)
+Lemma strictly_closer_meaning c2 k q v e : e <= 2 * k -> e <= q + v ->
+  (strictly_closer c2 k q v = true <->
+   (q < v /\ 10 ^ (q + v - e) < c2 * 10 ^ (2 * k - e)) \/ (v < q /\ c2 * 10 ^ (2 * k - e) < 10 ^ (q + v - e))).
+Proof.
+  intros H1 H2. unfold strictly_closer. rewrite (sq_cmp_at c2 k (q + v) e H1 H2).
+  destruct (Z.compare_spec (c2 * 10 ^ (2 * k - e)) (10 ^ (q + v - e))); destruct (q <? v) eqn:E1; destruct (v <? q) eqn:E2;
+    cbn [andb orb]; split; intros Q; try discriminate; try reflexivity; try lia.
+Qed.
